@@ -29,11 +29,13 @@ ASSUMPTIONS = ["SeqCst atomics, each fetch_add/fetch_sub/fetch_update is one ind
 TRUSTED = ["modelled not verified: tokio RwLock, ractor mailbox, iroh-gossip session life cycle, GossipHandle::clone/subscribe increments"]
 RULE = ("schedules are label lists (thread index | M = manager handles next message) over 2-4 threads each running "
         "'h = stream(topic); keep or drop h'; disabled labels are skipped and the rest runs to completion on both sides. quick: all "
-        "complete interleavings of the two-thread programs dk, dd, kd, kk after thread 0 finished its stream() alone (exhaustive), 30 "
-        "sampled interleavings each from a fully concurrent start, 22 sampled interleavings for each of 6 three-thread programs x 2 "
+        "5 free-running races (2000 repetitions each: after a complete drop, 2-4 threads call the real Gossip::stream at once; every "
+        "returned handle must be backed), all complete interleavings of the two-thread programs dk, dd, kd, kk after thread 0 finished its stream() alone (exhaustive), 30 "
+        "sampled interleavings each from a fully concurrent start, every interleaving of the fetch_sub / decision steps of two and three "
+        "concurrent drops of the same topic's handles (counter 2 and 3, with and without a kept handle), 22 sampled interleavings for each of 6 three-thread programs x 2 "
         "sequential starts (counter 1 / counter 2), 40 random three-thread walks; thorough: two-thread exhaustive for both starts, 400 "
         "per three-thread program and start, 600 random three-thread and 300 four-thread walks. non-trivial = a drop's fetch_sub or a "
-        "stream's check runs while another thread sits inside the fast-path window or between fetch_sub and Unsubscribe")
+        "stream's check runs while another thread sits inside the fast-path window or between fetch_sub and the decision / Unsubscribe")
 NONTRIVIAL_FLOOR = 10
 
 
@@ -96,7 +98,7 @@ class Sim:
         p = self.pc[i]
         others = [q for j, q in enumerate(self.pc) if j != i]
         if p[0] == "Stream":
-            if any(q[0] in ("Send",) for q in others) or any(q[0] == "Drop" for q in others):
+            if any(q[0] in ("Send", "Dec") for q in others) or any(q[0] == "Drop" for q in others):
                 self.window = True
             g = self.cur
             if g is not None and self.ctr[g] >= 1:
@@ -112,7 +114,7 @@ class Sim:
             self.rlock -= 1
             self.pc[i] = self.after(i, p[1])
         elif p[0] == "Slow":
-            owed = any(q[0] == "Send" for q in others)
+            owed = any(q[0] == "Send" or (q[0] == "Dec" and q[2] == 1) for q in others)
             alive = any(c >= 1 for c in self.ctr)
             if owed:
                 self.overlaps.append("late")
@@ -126,12 +128,14 @@ class Sim:
             self.cur = p[1]
             self.pc[i] = self.after(i, p[1])
         elif p[0] == "Drop":
-            if any(q[0] == "Win" for q in others):
+            if any(q[0] == "Win" for q in others) or any(q[0] == "Dec" for q in others):
                 self.window = True
             g = p[1]
             prev = self.ctr[g]
             self.ctr[g] = max(0, prev - 1)
-            self.pc[i] = ("Send", g) if prev == 1 else ("Done",)
+            self.pc[i] = ("Dec", g, prev)      # fetch_sub done, the previous value is thread-local
+        elif p[0] == "Dec":
+            self.pc[i] = ("Send", p[1]) if p[2] == 1 else ("Done",)
         elif p[0] == "Send":
             self.mbox.append(("U", p[1]))
             self.pc[i] = ("Done",)
@@ -178,6 +182,24 @@ SEQ_START = [0, 0, "M", 0]        # thread 0 completes its stream() (slow path) 
 SEQ2_START = [0, 0, "M", 0, 1, 1]  # ... then thread 1 completes its stream() (fast path) alone
 
 
+SEQ3_START = [0, 0, "M", 0, 1, 1, 2, 2]  # ... then thread 2 as well (counter 3)
+
+
+def _drop_interleavings(sim, prefix, out):
+    """every interleaving of the fetch_sub / decision steps of the threads that are dropping their handle
+    (the Unsubscribe and the manager run afterwards, in drain order)"""
+    ls = [i for i, p in enumerate(sim.pc) if p[0] in ("Drop", "Dec")]
+    if not ls:
+        out.append(list(prefix))
+        return
+    for l in ls:
+        s2 = sim.clone()
+        s2.step(l)
+        prefix.append(l)
+        _drop_interleavings(s2, prefix, out)
+        prefix.pop()
+
+
 def _prefixed(flags, prefix):
     sim = Sim(flags)
     for l in prefix:
@@ -190,12 +212,20 @@ REAL_CASES = [
     {"flags": "dk", "labels": [0, 0, 0, 0, 0, 1, 1], "real": True},          # drop completely, then re-subscribe
     {"flags": "kk", "labels": [0, 0, 0, 1, 1], "real": True},                # second handle through the fast path
     {"flags": "dd", "labels": [0, 0, 0, 1, 1, 0, 1], "real": True},          # two handles, both dropped
+    {"flags": "dd", "labels": [0, 0, 0, 1, 1, 0, 1, 0, 1], "real": True},    # ... both decrements before either decision
+    {"flags": "dd", "labels": [0, 0, 0, 1, 1, 0, 1, 1, 0], "real": True},
 ]
+
+
+# free-running races (no schedule control): after a complete drop, <threads> threads call the real Gossip::stream at once
+RACE_CASES = [{"race": 2000, "threads": 2}, {"race": 2000, "threads": 3}, {"race": 2000, "threads": 3}, {"race": 2000, "threads": 4}, {"race": 2000, "threads": 4}]
 
 
 def gen(tier, rng):
     quick = tier == "quick"
     for c in REAL_CASES:
+        yield dict(c)
+    for c in RACE_CASES:
         yield dict(c)
     for flags in ["dk", "dd", "kd", "kk"]:
         for prefix, cap in ((SEQ_START, None), ([], 30 if quick else None)):
@@ -205,6 +235,12 @@ def gen(tier, rng):
                 out = rng.sample(out, cap)
             for s in out:
                 yield {"flags": flags, "labels": s}
+    # the last two / three handles of one topic dropped concurrently: every interleaving of the decrements and decisions
+    for flags, prefix in (("dd", SEQ2_START), ("ddk", SEQ2_START), ("ddd", SEQ3_START), ("ddk", SEQ3_START), ("kdd", SEQ3_START)):
+        out = []
+        _drop_interleavings(_prefixed(flags, prefix), list(prefix), out)
+        for s in out:
+            yield {"flags": flags, "labels": s}
     for flags in ["ddk", "dkk", "dkd", "kdd", "ddd", "kkd"]:
         for prefix in (SEQ_START, SEQ2_START):
             out = []
@@ -235,7 +271,16 @@ def _labels(case):
     return out
 
 
+def _race_bad(impl):
+    if impl.startswith("race bad=") and "/" in impl:
+        k = impl[len("race bad="):].split("/")[0]
+        return int(k) if k.isdigit() else None
+    return None
+
+
 def harness_line(case):
+    if "race" in case:
+        return "race %d %d" % (case["race"], case["threads"])
     return "%s%s %s" % ("real " if case.get("real") else "", case["flags"], " ".join(str(l) for l in case["labels"]))
 
 
@@ -248,6 +293,9 @@ def _cflags(f):
 
 
 def coq_model(case):
+    if "race" in case:
+        # free-running: no model line to compare with; every outcome the model allows keeps all handles backed
+        return "model_line true %s %s" % (_cflags("d" + "k" * case["threads"]), _clabels(SEQ_START + [0, 0, 0, "M"]))
     return "model_line %s %s %s" % ("true" if FIXED else "false", _cflags(case["flags"]), _clabels(_labels(case)))
 
 
@@ -273,6 +321,10 @@ def _parse(impl):
 
 
 def coq_oracle(case, impl):
+    if "race" in case:
+        bad = _race_bad(impl)
+        # the property's first clause on the worst repetition: a kept handle must be backed by a live session
+        return "check [(%s, 1)] true [true] true" % ("true" if bad == 0 else "false")
     p = _parse(impl)
     if p is None:
         return "false"
@@ -285,10 +337,14 @@ def coq_oracle(case, impl):
 
 
 def _sim(case):
+    if "race" in case:
+        return Sim("", FIXED)
     return Sim(case["flags"], FIXED).run(_labels(case))
 
 
 def agree(case, impl, model):
+    if "race" in case:
+        return _race_bad(impl) is not None
     if not case.get("real"):
         return impl == model
     pi, pm = _parse(impl), _parse(model)
@@ -312,6 +368,8 @@ def known(case, impl):
 
 
 def shrink(case):
+    if "race" in case:
+        return
     ls = case["labels"]
     for i in range(len(ls) - 1, -1, -1):
         yield {"flags": case["flags"], "labels": ls[:i] + ls[i + 1:]}
@@ -324,6 +382,9 @@ def shrink(case):
 def distribution(cases, impl):
     d = {"threads": {}, "window_hit": 0, "overlap_late": 0, "overlap_concurrent": 0, "max_labels": 0, "fast_paths": 0, "slow_paths": 0}
     for i, c in enumerate(cases):
+        if "race" in c:
+            d["race_cases"] = d.get("race_cases", 0) + 1
+            continue
         k = str(len(c["flags"]))
         d["threads"][k] = d["threads"].get(k, 0) + 1
         s = _sim(c)
